@@ -1,7 +1,7 @@
 // Package simbadger replaces the badger import inside fs_db's Badger seam
 // (internal/db/badger). The database is the real Badger; Update and View become decision
 // points, Update is a persistent-mutation point (crash point) and can be made to fail before
-// it applies anything.
+// it applies anything or at its commit step, after its function has run.
 package simbadger
 
 import (
@@ -36,7 +36,8 @@ var ErrInjected = errors.New("simbadger: injected update failure")
 
 // Faults of the current world.
 type Faults struct {
-	FailUpdateAt map[uint64]bool // fail the n-th Update (1-based, counted per world)
+	FailUpdateAt map[uint64]bool // fail the n-th Update (1-based, counted per world) before it applies anything
+	FailCommitAt map[uint64]bool // let the function of the n-th Update run, then fail its commit step (Badger discards the transaction)
 	Updates      uint64
 	Views        uint64
 	Injected     uint64
@@ -89,6 +90,17 @@ func (db *DB) Update(fn func(txn *Txn) error) error {
 		if f.FailUpdateAt[f.Updates] {
 			f.Injected++
 			return ErrInjected
+		}
+		if f.FailCommitAt[f.Updates] {
+			// every write inside the function is accepted; the transaction then fails to commit
+			// (an I/O error on the value log, say): nothing of it may be visible anywhere
+			return db.DB.Update(func(txn *Txn) error {
+				if err := fn(txn); err != nil {
+					return err
+				}
+				f.Injected++
+				return ErrInjected
+			})
 		}
 	}
 	return db.DB.Update(fn)
